@@ -382,4 +382,98 @@ pub fn run(rep: &mut Rep) {
     rep.note(&format!("connect/authorize: all 22 CONNACK reasons x property sets, AUTH challenge, EOF / read error after every prefix of the response, write error; run(): all 28 server DISCONNECT reasons x 3 forms x properties x 5 session states; causes {{user DISCONNECT, EOF, read error, write error, undecodable input, all handles dropped}} x 5 states x with/without requests queued behind the cause; exhaustive paths of <= {depth} actions with the cause injected at every point and the context optionally held so that requests queue behind it"));
     let seed = rep.seed;
     explore_world(rep, "exh", depth, &move || World::boot(WorldCfg { seed, ..Default::default() }), &a);
+    // (d) the same Context on a second (and third) connection: every way the first one ended x every way of connecting
+    // again: run() must keep serving until a cause occurs on *that* connection, and then report that cause
+    let causes = [
+        TermAct::UserDisconnect,
+        TermAct::ServerDisconnect { reason: 0, form: 0, props: false },
+        TermAct::ServerDisconnect { reason: 0x8b, form: 2, props: true },
+        TermAct::Eof,
+        TermAct::ReadErr,
+        TermAct::WriteErr,
+        TermAct::Garbage,
+    ];
+    rep.note(&format!("second connection: {} causes ending the first connection x 4 ways of connecting the same Context again (session resumed / resumed with Receive Maximum 2 / expired / no disconnection recorded) x {} causes on the second connection (and 'none': run() pending at quiescence, a ping and a QoS 1 publish complete) - also with a QoS 1 publish left unfinished by the first connection; then a third connection", causes.len(), causes.len()));
+    let mut didx = 60_000_000u64;
+    for (c1, cause1) in causes.iter().enumerate() {
+        for mode in 0..4u8 {
+            for c2 in 0..=causes.len() {
+                for unfinished in [false, true] {
+                    if mode == 3 && unfinished {
+                        continue;
+                    }
+                    let id = format!("second:{c1}:{mode}:{c2}:{}", unfinished as u8);
+                    didx += 1;
+                    if !rep.take(didx, &id) {
+                        continue;
+                    }
+                    let mut w = World::boot(WorldCfg { seed: rep.seed, sei: if mode == 2 { None } else { Some(3600) }, ..Default::default() });
+                    if unfinished {
+                        w.start(0, Kind::Pub1);
+                        w.settle_check();
+                    }
+                    apply(&mut w, Act::Term(*cause1));
+                    w.settle_check();
+                    w.settle_check();
+                    if !can_reconnect(&w) {
+                        // (e.g. the write error's own probe is still pending) - nothing to continue with
+                        finish(&mut w);
+                        harvest(rep, &mut w, &id);
+                        continue;
+                    }
+                    apply(&mut w, Act::Reconnect(mode));
+                    w.settle_check();
+                    if !w.blind {
+                        // no cause on this connection: run() is serving
+                        let p = w.start(0, Kind::Ping);
+                        w.settle_check();
+                        w.pingresp();
+                        w.settle_check();
+                        let q = w.start(1, Kind::Pub1);
+                        w.settle_check();
+                        if w.m[q].req_wire.is_some() {
+                            w.deliver_ack(q, 1, 0, 0);
+                            w.settle_check();
+                        }
+                        let _ = p;
+                        if w.sim.run_result().is_some() && w.term.is_none() {
+                            let r = w.sim.run_result();
+                            w.viol(&["C13"], "C13/run-returned-without-cause/second-connection".into(), format!("run() on the second connection returned {:?} although nothing terminating happened on it", r));
+                        }
+                        if c2 < causes.len() {
+                            apply(&mut w, Act::Term(causes[c2]));
+                            w.settle_check();
+                            w.settle_check();
+                            if can_reconnect(&w) {
+                                apply(&mut w, Act::Reconnect((mode + 1) % 3));
+                                w.settle_check();
+                                if !w.blind {
+                                    let p3 = w.start(0, Kind::Ping);
+                                    w.settle_check();
+                                    w.pingresp();
+                                    w.settle_check();
+                                    let _ = p3;
+                                }
+                            }
+                        }
+                    }
+                    finish(&mut w);
+                    rep.add("evaluations", 1);
+                    rep.add("second_connection_cases", 1);
+                    rep.add("reconnections", w.reconnects as i64);
+                    rep.distinct(&("second", c1, mode, c2, unfinished));
+                    // on later connections everything observed about run()'s outcome is C13's business
+                    for v in w.viols.iter_mut() {
+                        if v.sig.starts_with("run-returned-without-cause") && !v.props.contains(&"C13") {
+                            v.props = &["C13"];
+                        }
+                    }
+                    if harvest(rep, &mut w, &id) == 0 {
+                        rep.sample(|| format!("{id}: first connection ended by {:?}, reconnect mode {mode}, second by {:?}: outcomes as documented", cause1, causes.get(c2)));
+                    }
+                    add_counters(rep, &w);
+                }
+            }
+        }
+    }
 }
